@@ -9,6 +9,12 @@ CLAIMED = {
 CLAIMED["C08"] = dict(technique="alias-snapshot analysis + mailbox-drain census with path conditions + flag-aware must-pass-through + read-only use census of cached slices",
   text="Decides seven structural necessary conditions of convergence: change detection never compares the query buffer with an alias of itself across the action-list interpreter; mailbox drains select messages independently of map iteration order; nth/denylist changes invalidate both caches and bump the revision before the next search; cancelled scans are never published; token cache reads are revision-checked; cached result lists are never written in place; cached mergers are reused only with the same final flag. Does not decide convergence itself.",
   note="Trusts go/ssa; closure variables resolved through MakeClosure bindings; in-place writers of the query buffer are enumerated from the code on every run.")
+CLAIMED["C07"] = dict(technique="backward slicing with sanitisers (inter-procedural through closures) + CFG reachability between classified sinks + constant tables + path conditions",
+  text="Decides five structural necessary conditions of the output contract: items reach a printer only via Item.AsString/acceptNth; framing order query→expect→queue→items per printing function; exit-code constants and per-request exit codes, filter-mode 0-iff-found, main→os.Exit pass-through; terminal restored before printing; the --with-nth builder always keeps the original bytes. Does not decide byte-for-byte equality of stdout.",
+  note="Trusts go/ssa; sinks are the three printer objects resolved by field identity; closures resolved through bindings.")
+CLAIMED["C14"] = dict(technique="constant-table pairing of DEC private modes with must-call sets and guard subsets + dominance + must-pass-through on CFG (flag-aware) + provenance slicing",
+  text="Decides four structural necessary conditions of clean exit: every terminal mode switched on is switched off on every path of Close and Pause (incl. raw mode, cursor, auto-wrap); the render loop stops only through exit() after quitting the previewer, closing the listener and the terminal, with EvtQuit/killPreview/cancel afterwards; temp-file lists of placeholder expansion are removed on every path; every started child is waited for and only group leaders are group-killed. Does not decide absence of panics/hangs.",
+  note="Light (ANSI) renderer on linux/amd64 only; tcell/windows renderers are not compiled in this configuration; decoder index guards (P2) not built.")
 NA = {
 }
 ALL = ["C%02d" % i for i in range(1, 21)]
